@@ -540,8 +540,55 @@ def bending(rep, prog):
             else:
                 rep.violation("C02.bending-receivers", prog, fn, c, "hinge node receives the gradient of another slot", "%s: %s receives the force assembled from slot %s" % (short(c, 60), want.get(role, R), slot))
         bending_stiffness(rep, prog, fn, blk, calls)
+        bending_coverage(rep, prog, fn, ev, calls)
     except S.Decline as e:
         raise AnalysisBroken("%s: %s" % (prog.loc(fn, blk), e))
+
+
+def bending_coverage(rep, prog, fn, ev, calls):
+    """a hinge is skipped because of a bending modulus only if the stiffness the forces carry vanishes for the skipped values"""
+    from ..model import facts_at
+    fi = prog.index(fn)
+    # the stiffness: the scalar local that combines the bending moduli of the two faces
+    stiff = None
+    for v in walk(fn["body"]):
+        if v.get("k") == "Var" and isinstance(v.get("init"), dict) and (v.get("t") or "").replace("const ", "").strip() in ("double", "float"):
+            try:
+                e = sp.sympify(ev.ev(v["init"]))
+            except S.Decline:
+                continue
+            for _ in range(4):
+                e, ch = ev.expand_once(e)
+                if not ch:
+                    break
+            mods = [a for a in e.free_symbols if a.name.endswith("bending_modulus_")]
+            if len(mods) >= 2:
+                stiff = (v, e, mods)
+    if stiff is None:
+        return
+    v, S_, mods = stiff
+    found = False
+    for atom, truth in facts_at(fn, fi, calls[0]):
+        if atom.get("k") != "BinaryOperator" or atom.get("op") not in ("==", "!=") or ((atom["op"] == "!=") != truth):
+            continue
+        for a_, b_ in ((atom["c"][0], atom["c"][1]), (atom["c"][1], atom["c"][0])):
+            lit = strip(b_)
+            if lit.get("k") not in ("FloatingLiteral", "IntegerLiteral"):
+                continue
+            try:
+                x_ = sp.sympify(ev.ev(a_))
+            except S.Decline:
+                continue
+            if x_.is_Symbol and x_ in mods:
+                found = True
+                rest = sp.simplify(S_.subs(x_, sp.nsimplify(float(lit["v"]))))
+                if rest == 0:
+                    rep.ok("C02.force-coverage", prog, fn, atom, "bending: hinges skipped by '%s' have zero stiffness" % short(atom, 50))
+                else:
+                    rep.violation("C02.force-coverage", prog, fn, atom, "bending skipped for hinges whose stiffness does not vanish",
+                                  "apply_bending_forces applies the hinge forces only when %s%s, but the stiffness they carry is %s = %s, which for the skipped value is %s: a hinge between a face type with a bending modulus and one without gets no force instead of half the modulus" % ("" if truth else "not ", short(atom, 60), v.get("name"), re.sub(r"this\.cell_type_\.face_types_\[[^\]]*\]\.", "", str(S_))[:80], re.sub(r"this\.cell_type_\.face_types_\[[^\]]*\]\.", "", str(rest))[:60]))
+    if not found:
+        rep.ok("C02.force-coverage", prog, fn, calls[0], "bending: no hinge is skipped because of the value of a bending modulus")
 
 
 def bending_stiffness(rep, prog, fn, blk, calls):
